@@ -37,7 +37,16 @@ def project_value(v, seen=None):
         attrs = []
         for name in cls._tx_attrs:
             attrs.append([name, project_value(getattr(v, name))])
-        return {"t": "obj", "cls": cls.__name__, "attrs": attrs, "s": v._tx_position, "e": v._tx_position_end}
+        o = {"t": "obj", "cls": cls.__name__, "attrs": attrs, "s": v._tx_position, "e": v._tx_position_end}
+        try:
+            from textx import get_location
+            loc = get_location(v)
+            o["ln"], o["co"] = loc["line"], loc["col"]
+            if loc["nchar"] != v._tx_position_end - v._tx_position:
+                o["nchar_mismatch"] = loc["nchar"]
+        except Exception as e:  # observable
+            o["ln"], o["co"] = -1, type(e).__name__
+        return o
     return {"t": "py", "v": repr(v)}
 
 
